@@ -2,8 +2,9 @@
 (* Trace validation for C14.  One line of fotraces.ndjson per case:             *)
 (*   [fs (the state a program was asked to plant; n = numbered files), ev |-> << state, (op, ping)* >>] *)
 (*   state   : obs      what the host sees through /proc/<init>/root            *)
-(*   open    : items <<[p, mode, mk]>>, err (whole call), res <<[fd, err, ident,*)
-(*             pident, kind, acc, cloexec]>>, blocked, post                     *)
+(*   open    : items <<[p, mode, mk, perm]>>, err (whole call), res <<[fd, err,  *)
+(*             ident, pident, kind, acc, st, cloexec, pmode, osize, wrote, wsize,*)
+(*             worig]>>, blocked, post                                          *)
 (*   symlink : links <<[link, to]>>, err, errs << "" | text >>, blocked, post   *)
 (*   delete  : p, err, blocked, post                                            *)
 (*   ping    : ok                                                               *)
@@ -21,23 +22,38 @@ EState(e) == Shows(e.obs, fs) /\ ShowsN(e.nobs, fs) /\ ShowsL(e.obs.ldeep, e.lob
 
 (* result i of the call against item i *)
 ItemOK(r, it, exp, k) ==
-  /\ (k # "unreadable" => r.fd = (exp = "fd"))      \* descriptor iff regular file or newly created
+  /\ ((k # "unreadable" \/ exp = "err") => r.fd = (exp = "fd"))   \* descriptor iff regular file or newly created (EEXIST for O_EXCL)
   /\ (r.fd => /\ r.kind = "regular"                 \* only ever a regular file
               /\ r.ident # "" /\ r.ident = r.pident \* it IS the file at the requested path (no link followed)
-              /\ r.acc = it.mode /\ r.cloexec)      \* with the requested access mode
+              /\ r.acc = Acc(it.mode) /\ r.cloexec  \* with the requested access mode ...
+              /\ ToSet(r.st) = Flags(it.mode) \cap StatusFlags   \* ... and status flags (O_APPEND, O_SYNC; nothing added)
+              /\ (k = "absent" => r.pmode = it.perm)) \* a created file has the requested permission bits
   /\ (~r.fd => r.err # "")
+(* second pass, after the call returned: size of every tracked file as the batch left it (O_TRUNC, *)
+(* creation), then the driver's write through each writable descriptor in item order               *)
+WalkWrite(e, f0) ==
+  FoldLeft(LAMBDA acc, i :
+             LET r == e.res[i]  it == e.items[i] IN
+             IF ~r.fd \/ it.p \notin Tracked THEN acc
+             ELSE IF Acc(it.mode) = "r" THEN [acc EXCEPT !.ok = @ /\ r.osize = f0.ct[it.p].size /\ ~r.wrote]
+             ELSE LET g == WriteThrough(acc.fs, it.p, it.mode) IN
+                  [ok |-> acc.ok /\ r.osize = f0.ct[it.p].size /\ r.wrote
+                                 /\ r.wsize = g.ct[it.p].size /\ r.worig = g.ct[it.p].og,
+                   fs |-> g],
+           [ok |-> TRUE, fs |-> f0], [i \in 1..Len(e.items) |-> i])
 (* one pass over the batch: item i is judged in the state the items before it left behind *)
 WalkOpen(e) ==
   FoldLeft(LAMBDA acc, i : LET r == OpenItem(acc.fs, e.items[i])
                            IN [ok    |-> acc.ok /\ ItemOK(e.res[i], e.items[i], r.r, r.k),
-                               drift |-> acc.drift \/ (r.k = "unreadable" /\ ~e.res[i].fd),
+                               drift |-> acc.drift \/ (r.k = "unreadable" /\ r.r = "fd" /\ ~e.res[i].fd),
                                fs    |-> r.fs],
            [ok |-> TRUE, drift |-> FALSE, fs |-> fs], [i \in 1..Len(e.items) |-> i])
 NormalOpen(e) ==
   /\ e.err = "" /\ Len(e.res) = Len(e.items)
-  /\ LET x == WalkOpen(e) IN
-       /\ x.ok
-       /\ Shows(e.post, x.fs) /\ ShowsN(e.npost, x.fs) /\ ShowsL(e.post.ldeep, e.lpost, x.fs) /\ fs' = x.fs
+  /\ LET x == WalkOpen(e)
+         y == WalkWrite(e, x.fs) IN
+       /\ x.ok /\ y.ok
+       /\ Shows(e.post, x.fs) /\ ShowsN(e.npost, x.fs) /\ ShowsL(e.post.ldeep, e.lpost, x.fs) /\ fs' = y.fs
        /\ (x.drift => TLCSet(N + t, 1))
 EOpen(e) ==
   /\ ~e.blocked                                     \* never blocks (FIFO, socket, device)
